@@ -11,6 +11,9 @@ import (
 // RunPlain runs a history of write transactions without a started DB (no graveyard worker).
 func RunPlain(r *vkit.Run, idx int, o Opts, nontrivial func(*Sim) bool) {
 	s := NewSim(r, idx, o)
+	if o.OnSim != nil {
+		defer o.OnSim(s)()
+	}
 	defer func() {
 		s.Finish(nontrivial(s))
 	}()
@@ -25,6 +28,9 @@ func RunPlain(r *vkit.Run, idx int, o Opts, nontrivial func(*Sim) bool) {
 func RunBubble(t *testing.T, r *vkit.Run, idx int, o Opts, nontrivial func(*Sim) bool) {
 	synctest.Test(t, func(t *testing.T) {
 		s := NewSim(r, idx, o)
+		if o.OnSim != nil {
+			defer o.OnSim(s)()
+		}
 		s.DB.VerifSetGCInterval(time.Millisecond)
 		s.DB.Start()
 		s.O.Sleep = func() {
